@@ -1008,7 +1008,6 @@ func (c *Check) errorsContinue() {
 	}
 	// os.Exit / log.Fatal inventory outside main
 	allowed := map[string]string{
-		"driver.addTemplates$1":        "an embedded template file is missing: impossible for a built binary because the files are compiled in by go:embed (their presence is checked by R5)",
 		"github.com/google/pprof.main": "command exit status of the pprof binary itself",
 	}
 	var fns []*ssa.Function
@@ -1033,6 +1032,8 @@ func (c *Check) errorsContinue() {
 					key := "exit:" + fnName(g)
 					if why, ok := allowed[fnName(g)]; ok {
 						c.ok("C09-R4", key, p.relFile(call.Pos()), "process exit in "+fnName(g), why)
+					} else if onlyOnMissingEmbeddedFile(g, b) {
+						c.ok("C09-R4", key, p.relFile(call.Pos()), "process exit in "+fnName(g), "reached only when reading a go:embed file fails: impossible for a built binary because the files are compiled in (their presence is checked by R5)")
 					} else {
 						c.bad("C09-R4", key, p.relFile(call.Pos()), "process exit in "+fnName(g)+": an error inside a session would terminate pprof")
 					}
@@ -1359,4 +1360,40 @@ func methodByName(p *Program, rel, name string) *ssa.Function {
 		return found
 	}
 	return nil
+}
+
+// onlyOnMissingEmbeddedFile: block blk of g is unreachable when every (embed.FS).ReadFile
+// call of g succeeds.
+func onlyOnMissingEmbeddedFile(g *ssa.Function, blk *ssa.BasicBlock) bool {
+	errs := map[ssa.Value]bool{}
+	for _, b := range g.Blocks {
+		for _, ins := range b.Instrs {
+			call, ok := ins.(*ssa.Call)
+			if !ok || call.Call.StaticCallee() == nil || call.Call.StaticCallee().String() != "(embed.FS).ReadFile" || call.Referrers() == nil {
+				continue
+			}
+			for _, r := range *call.Referrers() {
+				if ex, ok := r.(*ssa.Extract); ok && ex.Index == 1 {
+					for _, fl := range flowsOf(ex) {
+						errs[fl] = true
+					}
+				}
+			}
+		}
+	}
+	if len(errs) == 0 {
+		return false
+	}
+	reach := reachUnder(g, func(cond ssa.Value) int {
+		if cmp, ok := cond.(*ssa.BinOp); ok && (errs[cmp.X] || errs[cmp.Y]) {
+			switch cmp.Op {
+			case token.NEQ:
+				return -1
+			case token.EQL:
+				return 1
+			}
+		}
+		return 0
+	})
+	return !reach[blk]
 }
